@@ -367,9 +367,11 @@ func (s *Synchronizer) storeTask(
 	if err := s.blockchain.Store(block, commitments, stateUpdate, newClasses); err != nil {
 		committedBlock.Persisted <- err
 		if errors.Is(err, blockchain.ErrParentDoesNotMatchHead) {
-			// Block block.Number - 1 is the parent of this block which doesn't match
-			// so we need to revert the head to block.Number - 2
-			s.revertTask(ctx, block.Number-2, resetStreams)
+			// Block block.Number - 1 is the parent of this block which doesn't match. The block may
+			// have been fetched before the current head was stored (parallel fetchers, a reorg of
+			// the source in between), so the head is only reverted after comparing it with the
+			// source: it is the last possibly valid height.
+			s.revertTask(ctx, block.Number-1, resetStreams)
 			return
 		}
 
